@@ -17,7 +17,7 @@ for p, ms in notes.items():
             j = json.load(open(f))
         except Exception:
             j = {'property': p, 'raw': open(f).read()}
-        j['round'] = 2 if off == 3 else 3
+        j['round'] = off // 3 + 1
         j['detected_by'] = d
         j['confirmed'] = 'demo fails with patch / passes clean; `tools/try_mutant2.sh %s /verif/%s` -> VIOLATION lines, exit 1; clean tree exit 0' % (p, dst)
         json.dump(j, open(f, 'w'), indent=1)
